@@ -5,8 +5,11 @@ import (
 	"fmt"
 	"io"
 	"strings"
+	"time"
 
 	"github.com/dsnet/compress/xflate"
+	"github.com/dsnet/compress/xflate/verifharness/gen"
+	"github.com/dsnet/compress/xflate/verifharness/ref"
 	"github.com/dsnet/compress/xflate/verifharness/vhlib"
 )
 
@@ -101,8 +104,28 @@ func c18Reader(r *vhlib.Run, c codec, data, plain []byte, seq []rdOp) {
 	for _, o := range seq {
 		names = append(names, o.String())
 	}
-	replay := map[string]interface{}{"type": c.Name + ".Reader", "stream": vhlib.Hex(data), "ops": names}
+	replay := map[string]interface{}{"type": c.Name + ".Reader", "stream": vhlib.Hex(data[:min(len(data), 4000)]), "stream_len": len(data), "ops": names}
 	r.Eval("reader:"+c.Name, true, []byte(c.Name+strings.Join(names, " ")))
+	if c18Hangs >= 2 {
+		return
+	}
+	// a call that does not return is a finding of its own: the history runs under a watchdog
+	fin := make(chan struct{})
+	go func() {
+		defer close(fin)
+		c18ReaderBody(r, c, data, plain, seq, replay)
+	}()
+	select {
+	case <-fin:
+	case <-time.After(20 * time.Second):
+		c18Hangs++
+		r.Violate("hang", fmt.Sprintf("%s.Reader: a call of the history does not return within 20 s", c.Name), replay)
+	}
+}
+
+var c18Hangs int
+
+func c18ReaderBody(r *vhlib.Run, c codec, data, plain []byte, seq []rdOp, replay map[string]interface{}) {
 	defer func() {
 		if p := recover(); p != nil {
 			r.Violate("panic", fmt.Sprintf("%s.Reader: %v", c.Name, p), replay)
@@ -346,6 +369,39 @@ func runC18(r *vhlib.Run) {
 				seq = append(seq, ralpha[rng.Intn(len(ralpha))])
 			}
 			c18Reader(r, c, s.Data, s.Plain, seq)
+		}
+		// the same over a long text-like stream: short Reads leave the decoder in the MIDDLE of its
+		// stream (inside a block, a copy, a run), where a Close that closes nothing must also leave
+		// the decoder able to go on
+		if c.Name != "meta" {
+			tp := gen.Text(rng, 30000+rng.Intn(60000))
+			var td []byte
+			switch c.Name {
+			case "flate":
+				td = gen.StdDeflate(rng, tp, 6)
+			case "brotli":
+				td = gen.BrotliEnc(rng, tp)
+			case "bzip2":
+				td = ref.BZCompress(tp, 1+rng.Intn(9))
+			}
+			sizes := []int{0, 1, 7, 100, 4096, 5000, 100000}
+			for i := 0; i < 60 && td != nil; i++ {
+				var seq []rdOp
+				for k := 0; k < 3+rng.Intn(12); k++ {
+					switch rng.Intn(6) {
+					case 0:
+						seq = append(seq, rdOp{Kind: 'c'})
+					case 1:
+						if rng.Intn(3) == 0 {
+							seq = append(seq, rdOp{Kind: 'R'})
+						}
+					default:
+						seq = append(seq, rdOp{Kind: 'r', N: sizes[rng.Intn(len(sizes))]})
+					}
+				}
+				seq = append(seq, rdOp{Kind: 'r', N: 1 << 20}, rdOp{Kind: 'r', N: 1 << 20})
+				c18Reader(r, c, td, tp, seq)
+			}
 		}
 		// Close issued when the decoder has already taken the whole input while the caller has not
 		// drained the decoded output: if that Close reports success AND closed the Reader, no later
